@@ -145,6 +145,36 @@ def d16():  # C13 case of braced words (BibTeX von_token_found)
             and von(r"Jean {\ b} Fontaine") == [r"{\ b}"] and von(r"Jean {\'e}x Fontaine") == [r"{\'e}x"])
 
 
+def d17():  # C15: a month made of more digits than int() converts
+    from bibtexparser.middlewares import MonthIntMiddleware, MonthAbbreviationMiddleware, MonthLongStringMiddleware
+    from bibtexparser.model import Entry, Field
+    for M in (MonthIntMiddleware, MonthAbbreviationMiddleware, MonthLongStringMiddleware):
+        e = Entry("a", "k", [Field("month", "9" * 5000)])
+        M().transform_entry(e, None)
+        if e["month"] != "9" * 5000:
+            return False
+    return True
+
+
+def d18():  # C10: an int value whose recorded enclosing is 'no-enclosing' must still be written
+    import bibtexparser as b
+    from bibtexparser.middlewares import MonthIntMiddleware, AddEnclosingMiddleware
+    lib = b.parse_string("@a{k, month = 1}", append_middleware=[MonthIntMiddleware()])
+    out = b.write_string(lib, unparse_stack=[AddEnclosingMiddleware(reuse_previous_enclosing=True, default_enclosing="{", enclose_integers=False)])
+    return "month = 1" in out
+
+
+def d19():  # C07: the custom field sorter shares its order list with every entry it sorts
+    from bibtexparser import Library
+    from bibtexparser.middlewares import SortFieldsCustomMiddleware
+    from bibtexparser.model import Entry, Field
+    mw = SortFieldsCustomMiddleware(order=("title",), allow_inplace_modification=False)
+    out1 = mw.transform(Library([Entry("a", "k", [Field("x", "1"), Field("title", "t")])]))
+    out2 = mw.transform(out1)
+    k = mw.metadata_key()
+    return out2.entries[0].parser_metadata[k] is not out1.entries[0].parser_metadata[k]
+
+
 if __name__ == "__main__":
     bad = 0
     for name, f in sorted(((k, v) for k, v in globals().items() if k[0] == "d" and k[1:].isdigit()), key=lambda kv: int(kv[0][1:])):
